@@ -43,8 +43,8 @@ import (
 	"github.com/dadrus/heimdall/internal/truststore"
 	"github.com/dadrus/heimdall/internal/x"
 	"github.com/dadrus/heimdall/internal/x/errorchain"
+	"github.com/dadrus/heimdall/internal/x/hashx"
 	"github.com/dadrus/heimdall/internal/x/pkix"
-	"github.com/dadrus/heimdall/internal/x/stringx"
 )
 
 const defaultJWTAuthenticatorTTL = 10 * time.Minute
@@ -578,13 +578,13 @@ func (a *jwtAuthenticator) verifyTokenWithKey(
 func (a *jwtAuthenticator) calculateCacheKey(ep *endpoint.Endpoint, renderedURL, reference string) string {
 	digest := sha256.New()
 	digest.Write(ep.Hash())
-	digest.Write(stringx.ToBytes(renderedURL))
-	digest.Write(stringx.ToBytes(reference))
 
-	// a key is cached after it passed the validation according to the settings of this
-	// mechanism (validate_jwk, trust_store). An authenticator configured otherwise
-	// must not pick up that key without validating it on its own
-	digest.Write(stringx.ToBytes(a.id))
+	// the URL may be rendered using the issuer claimed by the token, and the reference is the key id
+	// named by it. Both are not verified yet and must not run into each other. A key is furthermore
+	// cached after it passed the validation according to the settings of this mechanism (validate_jwk,
+	// trust_store). An authenticator configured otherwise must not pick up that key without
+	// validating it on its own
+	hashx.WriteStrings(digest, renderedURL, reference, a.id)
 
 	// the ttl can be redefined on the rule level. An entry stored by an instance with a longer
 	// ttl must not be used by an instance configured with a shorter one beyond that ttl
